@@ -3236,10 +3236,11 @@ func (e *jsonEncDriverBytes) EncodeTime(t time.Time) {
 	}
 	switch e.timeFmt {
 	case jsonTimeFmtStringLayout:
-		e.b[0] = '"'
-		b := t.AppendFormat(e.b[1:1], e.timeFmtLayout)
-		e.b[len(b)+1] = '"'
-		e.w.writeb(e.b[:len(b)+2])
+
+		b := append(e.b[:0], '"')
+		b = t.AppendFormat(b, e.timeFmtLayout)
+		b = append(b, '"')
+		e.w.writeb(b)
 	case jsonTimeFmtUnix:
 		e.encodeIntAsUint(t.Unix(), false)
 	case jsonTimeFmtUnixMilli:
@@ -7451,10 +7452,11 @@ func (e *jsonEncDriverIO) EncodeTime(t time.Time) {
 	}
 	switch e.timeFmt {
 	case jsonTimeFmtStringLayout:
-		e.b[0] = '"'
-		b := t.AppendFormat(e.b[1:1], e.timeFmtLayout)
-		e.b[len(b)+1] = '"'
-		e.w.writeb(e.b[:len(b)+2])
+
+		b := append(e.b[:0], '"')
+		b = t.AppendFormat(b, e.timeFmtLayout)
+		b = append(b, '"')
+		e.w.writeb(b)
 	case jsonTimeFmtUnix:
 		e.encodeIntAsUint(t.Unix(), false)
 	case jsonTimeFmtUnixMilli:
